@@ -224,10 +224,12 @@ func (w *traceDbg) VisitStepInState(node *parser.ASTNode, vs parser.Scope, tid u
 func (w *traceDbg) VisitStepOutState(node *parser.ASTNode, vs parser.Scope, tid uint64, soErr error) util.TraceableRuntimeError {
 	return w.inner.VisitStepOutState(node, vs, tid, soErr)
 }
-func (w *traceDbg) RecordThreadFinished(tid uint64)           { w.inner.RecordThreadFinished(tid) }
-func (w *traceDbg) SetBreakPoint(source string, line int)     { w.inner.SetBreakPoint(source, line) }
-func (w *traceDbg) DisableBreakPoint(source string, line int) { w.inner.DisableBreakPoint(source, line) }
-func (w *traceDbg) RemoveBreakPoint(source string, line int)  { w.inner.RemoveBreakPoint(source, line) }
+func (w *traceDbg) RecordThreadFinished(tid uint64)       { w.inner.RecordThreadFinished(tid) }
+func (w *traceDbg) SetBreakPoint(source string, line int) { w.inner.SetBreakPoint(source, line) }
+func (w *traceDbg) DisableBreakPoint(source string, line int) {
+	w.inner.DisableBreakPoint(source, line)
+}
+func (w *traceDbg) RemoveBreakPoint(source string, line int) { w.inner.RemoveBreakPoint(source, line) }
 func (w *traceDbg) ExtractValue(threadID uint64, varName string, destVarName string) error {
 	return w.inner.ExtractValue(threadID, varName, destVarName)
 }
